@@ -99,7 +99,7 @@ def gen_build(tier, seed, todfs=False):
                     ls = ls + ["z"]
                 if badkind == "two_char" and i == 0:
                     ls = ls + ["tr"]
-                ov = "-" if r.random() < 0.7 else r.choice(["my~flow", "F_special", f"over{i}", "sysenv => use"]).replace(" ", "~")
+                ov = "-" if r.random() < 0.7 else r.choice(["my~flow", "F_special", f"over{i}", "sysenv => use", "<empty>"]).replace(" ", "~")
                 lines.append(f"b_flow {f} {t} {tok(ls)} {ov}")
                 stats["flows"] += 1
             nstocks = r.randint(0, 3)
@@ -109,6 +109,12 @@ def gen_build(tier, seed, todfs=False):
                 if badkind == "time_letter_missing" and i == 0:
                     tl = "q"
                 ls = subset(require_t_first=(tl in letters), tl=tl)
+                if r.random() < 0.2:
+                    # no time letter given: the default ("t") applies; dimensions in any order
+                    tl = "-"
+                    if r.random() < 0.5:
+                        ls = subset()
+                    stats["default_time_letter"] = stats.get("default_time_letter", 0) + 1
                 if tl not in letters and tl != "q":
                     pass
                 if badkind == "time_pos" and i == 0 and len(ls) > 1:
